@@ -184,6 +184,10 @@ inline bool run_history(Choice &c, Ctx &cx, bool light, unsigned char heapfill, 
         unsigned f = c.u8();
         o.trans = (trans_t)(f % 3); o.equil = (f & 4) != 0; o.refine = (f & 8) ? (IterRefine_t)(1 + (f >> 4) % 3) : NOREFINE; o.condnum = (f & 128) != 0; o.pivgrowth = (f & 64) != 0;
         int nrhs = (int)c.below(3); if (kind == ST_RESOLVE && nrhs == 0) nrhs = 1;
+        // With u = 0 the factorization may be arbitrarily unstable; iterative refinement with such factors can make X worse (its
+        // last correction is kept unverified), and nothing in the documentation bounds the refined X then.  The plain solve obeys
+        // the factor-derived bound whatever the growth, so that is what is judged for u = 0.
+        if (base.u == 0.0) o.refine = NOREFINE;
         if (cplx && o.nr && o.trans == CONJ && cx.is_known("F07")) { cx.exclude("F07"); o.trans = TRANS; }
         std::string what = "-";
         std::vector<int> perm_r_before = e.perm_r, perm_c_before = e.perm_c; char equed_before = e.equed[0];
